@@ -14,6 +14,24 @@
 //
 //	fz:X>Y    wire X>Y becomes slow: none of its messages is delivered until un:X>Y
 //	un:X>Y    (default once nothing else can happen, a deviation when done earlier)
+//	cb:K      (spaces with Crash) the default continuation is performed while Bob's database
+//	          refuses every write transaction after the K-th one of that event, then Bob
+//	          restarts from disk: "Bob's process died right after its K-th durable write".
+//	          Everything Bob did after that instant is discarded with the old instance (all
+//	          wires are cleared, as for rb). K ranges over a per-event-kind bound above the
+//	          measured maximum of writes; a branch that finds no (K+1)-th write is a dead end
+//	          (it equals "default; rb").
+//	L         (spaces with LongIdle) 20 s of virtual time while nothing is deliverable: past
+//	          the switch's 10 s log / 15 s ack tickers and the links' 15 s forwarding-package
+//	          collector, in the middle of an execution (the terminal drain uses the same event)
+//
+// Dimensions added by the axis audit (c08AuditSpaces; see the fields of c08Scn): Bob's two
+// channels in ONE database behind the crashdb wrapper (the fixture's one file per channel end
+// turns every cross-channel forwarding-package ack into a no-op), crash points, the
+// configuration options RejectHTLC / MaxFeeExposure, update_fail_malformed_htlc produced by
+// the receiver or by Bob himself (which also makes incoming and outgoing HTLC ids differ),
+// two HTLCs with equal hash and expiry but different amounts, amounts with a sub-satoshi
+// part, and the mid-run long pause.
 //
 // The default continuation is "launch a due payment; else deliver the globally oldest
 // deliverable message; else tick until two ticks changed nothing; else unfreeze; else
@@ -781,8 +799,8 @@ func c08AuditSpaces(thorough bool, pname func(...c08Pay) string) []c08Scn {
 	// live, the switch sees both channels on restart) x graceful faults everywhere.
 	base("onedb", c08Scn{Pays: []c08Pay{{Dir: "AC", Amt: nonDust, Kind: "valid"}, {Dir: "CA", Amt: nonDust, Kind: "valid", At: 6}}, OneDB: true}, "")
 	base("onedb", c08Scn{Pays: one("AC", "holdsettle", nonDust), OneDB: true}, "")
-	base("onedb", c08Scn{Pays: one("CA", "unknown", nonDust), OneDB: true}, "")
 	if thorough {
+		base("onedb", c08Scn{Pays: one("CA", "unknown", nonDust), OneDB: true}, "")
 		base("onedb", c08Scn{Pays: one("AC", "valid", nonDust), OneDB: true}, "")
 		base("onedb", c08Scn{Pays: one("CA", "valid", nonDust), OneDB: true}, "")
 		base("onedb", c08Scn{Pays: one("AC", "holdcancel", nonDust), OneDB: true}, "")
@@ -842,7 +860,9 @@ func c08AuditSpaces(thorough bool, pname func(...c08Pay) string) []c08Scn {
 
 	// (5) configuration options of the forwarder that decide whether an HTLC is forwarded
 	base("cfg", c08Scn{Pays: one("AC", "valid", nonDust), RejectHTLC: true}, "/rejecthtlc")
-	base("cfg", c08Scn{Pays: one("AC", "valid", dustLo), FeeExposureSat: 2000, OneDB: true}, "/exposure=2000")
+	// 4600 sat: an output on the commitments of the incoming channel, dust on Carol's
+	// commitment of the outgoing one: only the outgoing-side exposure check refuses it
+	base("cfg", c08Scn{Pays: one("AC", "valid", 4600*sat+7), FeeExposureSat: 2000, OneDB: true}, "/exposure=2000")
 	if thorough {
 		base("cfg", c08Scn{Pays: []c08Pay{{Dir: "AC", Amt: dustLo, Kind: "holdsettle"}, {Dir: "AC", Amt: dustLo, Kind: "valid", At: 6}}, FeeExposureSat: 5000, OneDB: true}, "/exposure=5000")
 		base("cfg", c08Scn{Pays: one("CA", "holdsettle", nonDust), RejectHTLC: true, OneDB: true}, "/rejecthtlc")
@@ -850,7 +870,18 @@ func c08AuditSpaces(thorough bool, pname func(...c08Pay) string) []c08Scn {
 		base("cfg", c08Scn{Pays: []c08Pay{{Dir: "AC", Amt: nonDust, Kind: "holdsettle"}, {Dir: "AC", Amt: nonDust, Kind: "valid", At: 6}}, LinkFeeExposureSat: 8000, OneDB: true}, "/linkexposure=8000")
 	}
 
-	// (6) THOROUGH ONLY: a long pause (past the switch's 10 s / 15 s tickers and the links'
+	// (6) a long pause (past the 10 s / 15 s tickers) in the MIDDLE of an execution. Quick:
+	// the B-C connection drops while the forwarded Add is not yet signed for and is slow to
+	// come back (the Add waits in the outgoing mailbox), a long pause at every idle point,
+	// then Bob restarts at every later position: the half-open circuit must be failed back
+	// from the incoming link's forwarding package, which the periodic collector must
+	// therefore not have removed.
+	{
+		p := []c08Pay{{Dir: "AC", Amt: nonDust, Kind: "valid"}}
+		out = append(out, c08Scn{Name: "gc/" + pname(p...) + "/cutBC@pending+L+rb", Pays: p, Dev: 1, Faults: 2, Total: 3,
+			LongIdle: true, OnlyLong: true, OneDB: true, SlowReest: "C>B", FaultSeq: []string{"cut:BC", "rb"}, FirstFaultPending: true})
+	}
+	// THOROUGH ONLY: a long pause (past the switch's 10 s / 15 s tickers and the links'
 	// 15 s forwarding-package collector) in the MIDDLE of an execution -- while an HTLC is
 	// held (long/), or while a forwarded Add waits in the mailbox of an outgoing link whose
 	// connection is slow to come back, followed by a restart of Bob (gc/: the half-open
@@ -888,6 +919,12 @@ func c08GateCases() []c08Job {
 			Hist: strings.Fields("pay0 d:A>B T d:A>B d:B>A d:B>A pay1 d:A>B d:A>B d:B>C T d:A>B d:B>C d:B>A d:B>A d:C>B d:C>B d:A>B d:B>C d:B>C d:C>B d:C>B d:B>A d:B>A d:B>C d:B>C fz:A>B d:C>B d:C>B d:B>C d:C>B d:C>B d:B>A d:B>C d:B>C d:C>B T T un:A>B rb")},
 		{Mode: "replay", Scn: c08Scn{Name: "gate/hold+unknown-cutAB", Pays: []c08Pay{hold, unk}, Faults: 2, Dev: 2},
 			Hist: strings.Fields("pay0 d:A>B T d:A>B pay1 d:B>A T cut:AB")},
+		// one database for Bob, Bob dies after the first write of the revocation that locks the Add in
+		{Mode: "replay", Scn: c08Scn{Name: "gate/onedb-crash", Pays: []c08Pay{{Dir: "AC", Amt: 20_000_321, Kind: "valid"}}, Faults: 1, OneDB: true, Crash: true},
+			Hist: strings.Fields("pay0 d:A>B T d:A>B d:B>A d:B>A cb:1")},
+		// an onion Bob cannot parse next to a forwarded payment, a long pause, a cut
+		{Mode: "replay", Scn: c08Scn{Name: "gate/badonion+hold-long-cutBC", Pays: []c08Pay{{Dir: "AC", Amt: 3_000_007, Kind: "badonion"}, {Dir: "AC", Amt: 20_000_321, Kind: "holdsettle"}}, Faults: 1, Dev: 1, OneDB: true, LongIdle: true},
+			Hist: strings.Fields("pay0 pay1 d:A>B d:A>B T d:A>B d:B>A d:B>A d:A>B d:B>A d:B>A d:B>C d:A>B d:A>B d:B>A T d:B>C d:C>B d:C>B d:B>C T T L cut:BC")},
 	}
 }
 
@@ -908,8 +945,9 @@ func TestC08(t *testing.T) {
 	pool := &c08Pool{self: self, scratch: scratch}
 	run.Assumptions = append(run.Assumptions,
 		"goroutine interleavings inside the handling of one event are the Go scheduler's, not enumerated; what is enumerated is message order, fault position, timer order (the property's own quantifier leaves scheduling to the runtime)",
-		"the repo's three-hop fixture is used unchanged: mock onion/obfuscator, static fee estimator, no chain events; Bob's two channels live in two bbolt files (fixture artefact), so cross-channel settle/fail acks of forwarding packages are partly no-ops",
-		"faults are graceful (a link or switch stops between two events, i.e. at a point where every goroutine is blocked); crashes inside a database transaction sequence are C02/C07/C13's subject",
+		"the repo's three-hop fixture: mock onion/obfuscator, static fee estimator, no chain events, tweakless channels only (the other channel types are C01-C05's subject). In the spaces inherited from the first rounds Bob's two channels live in two bbolt files (fixture artefact: cross-channel settle/fail acks of forwarding packages are no-ops there); in the one_db spaces both live in one database as on a real node",
+		"faults are graceful (a link or switch stops between two events, i.e. at a point where every goroutine is blocked) except in the crash spaces, where Bob dies after the k-th write transaction of an event for every k; a crash loses every message in flight in both directions (the variant in which a peer still receives what Bob sent just before dying is not explored)",
+		"an undecodable onion is modelled at the decoder seam: for the chosen payment hash the link's DecodeHopIterators reports CodeInvalidOnionHmac, the code the sphinx processor reports for a corrupted packet",
 		"one lnd-internal scheduler race is visible at quiescent points (when one revocation locks in adds and settles/fails destined for the same other link, the mailbox may or may not let the response overtake the add); the harness pins the add-first order by delaying settle/fail batches by nanoseconds of virtual time at the fixture's ForwardPackets closure; the response-first order is not explored",
 		"virtual time per execution stays below the 30 min fee-update timer and the 1 h mailbox/invoice expiry; HTLC expiry by block height is out of scope (no block epochs)",
 	)
@@ -919,7 +957,7 @@ func TestC08(t *testing.T) {
 		return
 	}
 
-	budget := 150 * time.Second
+	budget := 240 * time.Second
 	if run.Thorough() {
 		budget = 26 * time.Minute
 	}
@@ -1264,7 +1302,7 @@ func TestC08(t *testing.T) {
 	if len(divergeAt) > 0 {
 		cov["replay_divergence_examples"] = divergeAt
 	}
-	cov["rule"] = "per space (payment batch + budgets, see per_space): every event schedule of the real three-hop network (inside a synctest bubble) with at most Dev schedule deviations (out-of-order delivery, early tick, early hold resolution, slow wire fz/un) and at most Faults fault events (cut:AB, cut:BC, restart Bob), at most Total of both, relative to the default 'deliver the oldest message, tick when nothing is in flight'; base = 1/1/1, deep = 2/2/2, linkreject = base budget on batches where Bob's outgoing link itself rejects an Add, expiry = cut:BC then cut:AB with a 60 ms mailbox timeout and a slow re-establishment, product = one slow wire x one fault (sharded by wire and fault kind, shards share their default prefix so sums over shards count those states once per shard); an evaluation = one execution (a fresh network replaying an event list); distinct_nontrivial = distinct canonical quiescent states (commitments of all four channel ends, circuit counts, wires, payment and invoice states, forwarding-package progress, budgets used) reached after at least one event, summed over spaces, each of which had the per-state oracle clauses evaluated; terminal_executions had the conservation clauses evaluated"
+	cov["rule"] = "per space (payment batch + budgets, see per_space): every event schedule of the real three-hop network (inside a synctest bubble) with at most Dev schedule deviations (out-of-order delivery, early tick, early hold resolution, slow wire fz/un) and at most Faults fault events (cut:AB, cut:BC, restart Bob), at most Total of both, relative to the default 'deliver the oldest message, tick when nothing is in flight'; base = 1/1/1, deep = 2/2/2, onedb / onion / shard / cfg = base budget on the audit dimensions (one database for Bob, undecodable onions, equal-hash HTLC pairs, RejectHTLC / MaxFeeExposure), crash = the default schedule with Bob dying after the k-th write transaction of every event that reaches him (every k up to a bound above the measured maximum), gc = connection loss while a forwarded Add is unsigned + a 20 s pause at every idle point + restart of Bob at every later point, linkreject = base budget on batches where Bob's outgoing link itself rejects an Add, expiry = cut:BC then cut:AB with a 60 ms mailbox timeout and a slow re-establishment, product = one slow wire x one fault (sharded by wire and fault kind, shards share their default prefix so sums over shards count those states once per shard); an evaluation = one execution (a fresh network replaying an event list); distinct_nontrivial = distinct canonical quiescent states (commitments of all four channel ends, circuit counts, wires, payment and invoice states, forwarding-package progress, budgets used) reached after at least one event, summed over spaces, each of which had the per-state oracle clauses evaluated; terminal_executions had the conservation clauses evaluated"
 	sl := samples.List()
 	if len(sl) == 0 {
 		sl = []any{"none"}
